@@ -199,7 +199,11 @@ impl Stats {
     }
     pub fn violation(&mut self, sig: &str, detail: String, input: &str) {
         self.add("violations_raw", 1);
-        if self.violations.len() < 200 {
+        // keep at most two per signature, so that a flood of one kind cannot crowd out the others
+        if self.violations.iter().filter(|v| v.sig == sig).count() >= 2 {
+            return;
+        }
+        if self.violations.len() < 400 {
             self.violations.push(Violation {
                 sig: sig.to_string(),
                 detail,
@@ -237,7 +241,10 @@ impl Stats {
             }
         }
         for v in o.violations {
-            if self.violations.len() < 400 {
+            if self.violations.iter().filter(|x| x.sig == v.sig).count() >= 2 {
+                continue;
+            }
+            if self.violations.len() < 2000 {
                 self.violations.push(v);
             }
         }
